@@ -716,3 +716,33 @@ CHECKS['C09']['level_text'] = CHECKS['C09']['level_text'] + (" BITMAP (Props/C09
     "or panics (C09Bit_bitcount_overcount, C09Bit_bitcount_panics, witnesses by evaluation on reachable stores; the real code shows both: known findings).")
 CHECKS['C11']['level_text'] = CHECKS['C11']['level_text'] + " Bitmap: C11_setbit / bitclear / bexpire / bpersist_error_no_effect on the model of protocol datacorebit (both layouts); a Go panic of the apply path is exhibited (C11_setbit_panic_witness; known finding)."
 CHECKS['C12']['level_text'] = CHECKS['C12']['level_text'] + " Bitmap keys (Props/C12Bit.lean): segment keys injective in (table, versioned key, index), meta keys in (table, key), both type bytes apart from each other and from every other tuple, segment keys of a generation ordered by index below its stop key, iterator range isolation."
+
+# ---- C13: theorems for the KEY scans (ADVSCAN / ADVREVSCAN over one table of a multi-table store): Data/ScanKeyLemmas.lean,
+#      Props/C13.lean C13_key_scan_*; their examples are replayed on the real node by corpus/C13/scan-keyscan-theorem-examples.txt
+CHECKS['C13']['level_text'] = CHECKS['C13']['level_text'] + (" KEY SCANS (ADVSCAN / ADVREVSCAN, the functions advPage / advFull that protocol scan runs against the real merge handlers): "
+    "for EVERY ascending duplicate-free population of raw keys of any number of tables (no condition on the keys: neighbour tables t / t! / t0, a key `t:` with an empty key part, "
+    "keys that are prefixes of each other, keys without ':'), every table name without the byte ':' (the empty one included), EVERY start cursor, every COUNT in 1..5000 and fuel >= results/COUNT + 1: "
+    "the client loop 'feed the cursor back as table:cursor until it is empty' returns exactly the keys of that table beyond the cursor - a filter of the population, so each once, in key order, nothing of a "
+    "neighbouring table - forwards in exactly results/COUNT + 1 rounds (C13_key_scan_forward), in reverse the keys before the cursor in descending order in results/COUNT or results/COUNT + 1 rounds "
+    "(C13_key_scan_reverse; the smaller number only when a full page ends with the key `t:`); with a filter (MATCH as the driver applies it) exactly the matching ones (C13_key_scan_match, both directions); "
+    "COUNT 0 / omitted (pages of 100, only the EMPTY page is called last): same answer within results/100 + 2 rounds (C13_key_scan_default_count). The proof rests on the contiguity of a table in byte order "
+    "(between two keys with prefix `t:` there are only keys with prefix `t:`), the next cursor being the last key of a full in-table page, and the table-boundary cut being a takeWhile of a prefix. "
+    "COUNT > 5000 is proved NOT to be complete: the store clamps the page to 5000 while the node compares with the unclamped COUNT, so the loop ends after one round with the first 5000 keys "
+    "(C13_key_scan_count_over_5000, _incomplete, _witness on 5001 keys by kernel evaluation; the real node answers the same: notes/probes/C13-count-over-5000.*).")
+CHECKS['C13']['partial'] = [x for x in CHECKS['C13']['partial'] if not x.startswith('key scans (ADVSCAN')] + [
+    "COUNT > 5000 (key scans and HSCAN/SSCAN/ZSCAN alike): the scan ends after its first page of 5000 elements with the empty cursor (`length < count` in node/scan.go against the page clamped by checkScanCount); "
+    "theorem for the key-scan model (C13_key_scan_count_over_5000*), reproduced on the real node by notes/probes/C13-count-over-5000.ops (oracle: scan-wrong-result); the generator has COUNT 5001 only on populations of <= 25 keys, "
+    "so the checks do not meet it; the collection-scan theorems assume COUNT <= 5000",
+    "key scans: table names containing ':' are outside the theorems (no raw key has such a table: C13_key_scan_table_with_colon_witness); MATCH is a theorem for the model's reading (paging over the matching keys), "
+    "general glob patterns stay oracle-only"]
+CHECKS['C13']['assumptions'] = [x for x in CHECKS['C13']['assumptions'] if not x.startswith('1 <= COUNT')] + [
+    "collection-scan theorems: 1 <= COUNT <= 5000; key-scan theorems: 0 <= COUNT <= 5000 (0 = default 100; a negative COUNT is refused by parseScanArgs; beyond 5000 see partial), table name without ':'"]
+CHECKS['C13']['level_note'] = CHECKS['C13']['level_note'].replace("ADVSCAN's table rule is differential/oracle only; ", "COUNT > 5000 truncates the scan (proved of the model, reproduced on the real node); ")
+
+# C13 after fix fbc9256 (COUNT clamped by parseScanArgs): regenerated COUNT handling (Gen/Scan.lean), positive any-COUNT theorem
+CHECKS['C13']['gens'] = CHECKS['C13'].get('gens', []) + ['Scan']
+CHECKS['C13']['level_text'] = CHECKS['C13']['level_text'] + (" SINCE FIX fbc9256 the node clamps COUNT to the store's page limit when it parses it (parseCount, regenerated from parseScanArgs): "
+    "C13_key_scan_any_count — the key-scan loop is complete for EVERY COUNT >= 1, both directions; the C13_key_scan_count_over_5000* theorems now describe the unclamped loop (the repaired defect), "
+    "and the former probe is replayed from corpus/C13/scan-count-over-5000.txt on every run.")
+CHECKS['C13']['partial'] = [x for x in CHECKS['C13']['partial'] if not x.startswith('COUNT > 5000')] + [
+    "COUNT > 5000: clamped by parseScanArgs since fbc9256 (model: parseCount); the collection-scan theorems are stated for 1 <= COUNT <= 5000, which is every COUNT that reaches them"]
